@@ -171,7 +171,9 @@ CLAIMED = {
         category="proof",
         technique="Lean 4 proofs of the filter contracts on list models (partition, sizes, first occurrences, sorted "
                   "stable permutation, grouping, extrema, sum) + differential runs of the real filters (sync/async, "
-                  "lists/generators/async generators) against the models",
+                  "lists/generators/async generators) against the models + a may-alias inventory of in-place operations and "
+                  "returned objects read from filters.py/async_utils.py each run and pinned by decide + before/after deep "
+                  "snapshots of every argument around direct calls and template renders",
         text="Theorems (Props/C22.lean), for all lists and arguments: slice without fill concatenates to the input, has n "
              "slices of size floor(len/n) (+1 for the first len mod n), fill goes exactly to the short slices and to none "
              "when the input divides evenly; batch concatenates to the input, all batches but the last have n items, with "
@@ -180,10 +182,22 @@ CLAIMED = {
              "key-sorted input into non-empty groups of equal key; min/max return an item bounding all items; sum = start "
              "+ items. Tie: exhaustive lengths 0-7/0-10 x sizes 1-8 x fill; all key lists of length <4/<5 over mixed-case "
              "keys + random lists, case sensitivity, reverse, rendered through the real filters in sync and async "
-             "environments; 17 further filter forms compared with their Python definitions.",
+             "environments; 17 further filter forms compared with their Python definitions. Frame (Props/C22Frame.lean over "
+             "Gen/FilterMutators.lean, regenerated from filters.py + async_utils.py every run): in the functions behind all 22 "
+             "collection filter names (sync and async variants, and every helper they call) no in-place operation (.sort .reverse "
+             ".append .extend .pop ..., x[i]=v, del x[i], x+=v) has a receiver that may be (part of) an argument "
+             "(no_inplace_mutation_of_arguments); auto_to_list and every 'returns a new list/iterator' filter return only "
+             "generators or objects built in the function (auto_to_list_fresh, new_object_filters_return_fresh); the roster covers "
+             "every name and both variants. The Lean list models are pure, so 'arguments unchanged' is a harness oracle: every "
+             "argument (value as list/tuple/list subclass/dict/dict view/generator/async generator, nested lists, fill/start/"
+             "default/test arguments) is deep-snapshotted before and after direct calls of every filter in sync and async "
+             "environments and around templates that use the same variable again after the filter; new-object filters must not "
+             "return the argument and modifying the result must not reach it; results equal across variants.",
         note="Trusted: Lean kernel; hand model Model/FiltColl.lean; Python's sorted() = stable merge sort, str order = "
              "code-point order (ASCII keys); sort theorems assume a total transitive order; the 'Python definition' filters "
-             "(reverse, first, last, length, list, join, map, select, reject, selectattr, rejectattr) are correspondence only.",
+             "(reverse, first, last, length, list, join, map, select, reject, selectattr, rejectattr) are correspondence only; "
+             "the may-alias analysis of translate/filter_mutators.py (its lists of constructor / scalar / mutator names) and the "
+             "snapshot oracle; methods of non-builtin argument types are not analysed.",
         design_ref="§5 C22",
     ),
     "C39": dict(
